@@ -339,11 +339,32 @@ CLAIMED = {
              "with an empty principal or resource list. The code's lazy resolution of unreferenced common types is followed.",
         technique="TLA+ specification of schema resolution as the oracle (model-checked total); TLC-enumerated schema ASTs resolved, "
                   "rendered and reparsed by the Go code; TLC trace validation of recorded resolutions and round trips against the oracle"),
+    "C15": dict(
+        category="model_checking",
+        text="spec/Typing.tla states what validation promises -- for an accepted policy, under every request and entity store that conform "
+             "to the schema, the evaluation (the specification's evaluator of C01, which also supplies the error class) does not fail "
+             "with a type, arity or unknown-function error, a missing attribute on a record or present entity, or a missing tag; "
+             "overflow, absent entities and extension errors remain allowed -- and defines conformance of values, entities and "
+             "requests to a resolved schema (over SchemaModel!Resolve). MC_Typing supplies the universe: a schema with required / "
+             "optional attributes of every type, nested records, sets, the four extension types, tags, an optional entity-typed "
+             "attribute, an action group and two actions with different contexts; 40 environments (optional members present / absent, "
+             "entities present in / absent from the store, both actions) that TLC checks to conform (and that the real "
+             "Validator.Request / Entities must accept, otherwise exit 2); and the policies: every binary operator over every ordered "
+             "pair of 39 typed leaves, every unary operator and 15 extension functions over the leaves, 50 guard forms (has / hasTag "
+             "before access in && / || / ! / then / else positions, is-guards, optional access inside sets / records / if), under "
+             "three action scopes (26k policies; every 4th quick). The real validator judges each policy in strict and permissive mode; "
+             "Trace_Typing evaluates every ACCEPTED policy under all environments and demands soundness.",
+        design_ref="DESIGN.md 4 C15",
+        note=TRUSTED + "The typing rules themselves are not modelled (the statement is about what the real validator accepts); one schema "
+             "and a bounded universe of conforming data: unsoundness that needs other shapes is missed. Error classes come from the "
+             "TLA+ evaluator.",
+        technique="TLA+ soundness predicate and conformance definition evaluated by TLC (with the TLA+ evaluator) on the verdicts of the "
+                  "real validator over a TLC-enumerated policy universe and TLC-checked conforming environments"),
 }
 
 HOOK_COMMITS = ["82e75f7fe48a39cfaaa51c07619f57b1dcd3cfd5"]   # /repo: x/exp/verifhook/verifhook.go (//go:build verif), re-exports the policy tokenizer (C18)
 
-PENDING ="check under construction in this session (the specification modules it needs are being written; see DESIGN.md 10)"
+PENDING = "no check is registered for this property yet"
 
 
 def main():
